@@ -204,8 +204,9 @@ class Port:
             obs.append([99, b"exception escaped TftpServer._run: " + escaped.encode()])
         if hang:
             obs.append([99, b"transfer thread did not end"])
-        alive = (len(probe_replies) == 1 and probe_replies[0][1] == "send" and probe_replies[0][3] == PROBE_ADDR
-                 and T.parse_packet(probe_replies[0][2]) == [5, 2] and not self.sock.script)
+        # alive = the probe was taken off the socket and answered (what it is answered with is a case of its own)
+        alive = (not self.sock.script
+                 and any(e[1] == "send" and e[3] == PROBE_ADDR for e in probe_replies))
         if not alive:
             obs.append([7])
         return obs
